@@ -94,7 +94,14 @@ NonTrivialStep(s) ==
        \/ v \in Gone /\ s.before[t] # "none"
        \/ IsValid(v) /\ s.before[t] \notin {"none", v}
 
-Init == l = 1 /\ st = Idle /\ bad = {} /\ div = {} /\ stats = [scenarios |-> 0, nontrivial |-> {}, calls |-> 0, steps |-> 0]
+(* Rejected events and the ids of non-trivial scenarios are collected in TLC registers (1 and 4), not in *)
+(* the state: set-valued state variables would make every step linear in their size.                  *)
+Init == /\ l = 1 /\ st = Idle /\ bad = 0 /\ div = {}
+        /\ stats = [scenarios |-> 0, nontrivial |-> 0, calls |-> 0, steps |-> 0]
+        /\ TLCSet(1, {}) /\ TLCSet(4, {})
+
+Collect(es) == /\ bad' = bad + Cardinality(es)
+               /\ (es # {}) => TLCSet(1, TLCGet(1) \cup es)
 
 OnReset(e) == /\ st' = Fresh(e)
               /\ UNCHANGED <<bad, div>>
@@ -120,7 +127,7 @@ OnStep(e) ==
 OnCall(e) ==
   LET c == [cb |-> e.cb, id |-> e.id, src |-> e.src, ver |-> e.ver, ret |-> e.ret]
       rs == IF st.cur.src = "" THEN {R("call-outside-of-a-step", e.src)} ELSE CallReasons(st, c)
-  IN /\ bad' = bad \cup Entries(st, rs, e.cb, l)
+  IN /\ Collect(Entries(st, rs, e.cb, l))
      /\ st' = Apply(Taint(st, rs), c)
      /\ UNCHANGED div
      /\ stats' = [stats EXCEPT !.calls = @ + 1]
@@ -132,7 +139,7 @@ OnDone(e) ==
                    \/ st.cur.src = "*"
                    \/ st.cur.src = s /\ (st.kind # "informer" \/
                         (st.cur.ver = st.content[s] /\ st.cur.evt # "resync"))}
-  IN /\ bad' = bad \cup Entries(st, rs, "", l)
+  IN /\ Collect(Entries(st, rs, "", l))
      /\ div' = IF ActiveOf(e.active) = st.active THEN div
                ELSE div \cup {[line |-> l, case |-> st.case, what |-> "recorder and model disagree on the active sets"]}
      /\ st' = [Taint(st, rs) EXCEPT !.dirty = @ \ looked]
@@ -141,10 +148,11 @@ OnDone(e) ==
 OnQuiet(e) ==
   LET s0 == [st EXCEPT !.cur = NoCur]
       rs == QuietReasons(s0, LAMBDA s : ~(Queued(s0) /\ s \in s0.dirty))
-  IN /\ bad' = bad \cup Entries(s0, rs, "", l)
+  IN /\ Collect(Entries(s0, rs, "", l))
      /\ st' = Taint(s0, rs)
      /\ UNCHANGED div
-     /\ stats' = [stats EXCEPT !.nontrivial = IF st.nontrivial THEN @ \cup {st.case} ELSE @]
+     /\ stats' = [stats EXCEPT !.nontrivial = IF st.nontrivial THEN @ + 1 ELSE @]
+     /\ st.nontrivial => TLCSet(4, TLCGet(4) \cup {st.case})
 
 Next ==
   /\ l <= Len(Trace)
@@ -162,10 +170,10 @@ Spec == Init /\ [][Next]_vars
 Done ==
   /\ TLCGet("stats").diameter - 1 = Len(Trace)
   /\ JsonSerialize(OutFile, [lines |-> Len(Trace),
-                             stats |-> [TLCGet(3) EXCEPT !.nontrivial = SetToSeq(@)],
+                             stats |-> [TLCGet(3) EXCEPT !.nontrivial = SetToSeq(TLCGet(4))],
                              bad |-> SetToSeq(TLCGet(1)), div |-> SetToSeq(TLCGet(2))])
 
 Export == IF l = Len(Trace) + 1
-          THEN TLCSet(1, bad) /\ TLCSet(2, div) /\ TLCSet(3, stats)
+          THEN TLCSet(2, div) /\ TLCSet(3, stats)
           ELSE TRUE
 =============================================================================
